@@ -54,7 +54,7 @@ def record_compile(ptn, L, idoid, chains, phys=None):
             def part(hcs, coeffs):
                 g = None
                 try:
-                    g = sys._getframe(1).f_locals.get('graph')
+                    g = wrap.caller_locals().get('graph')
                 except Exception:
                     pass
                 if g is not None:
@@ -82,7 +82,7 @@ def record_compile(ptn, L, idoid, chains, phys=None):
             return cover
 
         objs = [ptn.OpChain(list(c['oids']), list(c['qnums']), float(c['coeff']), c['istart']) for c in chains]
-        with wrap.patched((og, '_site_partition_halfchains', mk_part), (og, 'minimum_vertex_cover', mk_cover)):
+        with wrap.patched((og, '_site_partition_halfchains', mk_part), (og, 'minimum_vertex_cover', mk_cover), trace=tr):
             g = og.OpGraph.from_opchains(objs, L, idoid)
         try:
             cons = bool(g.is_consistent())
